@@ -1,15 +1,10 @@
 package harness
 
 import (
-	"fmt"
-	"sort"
 	"strconv"
 	"strings"
 
 	sdk "github.com/cosmos/cosmos-sdk/types"
-	stakingtypes "github.com/cosmos/cosmos-sdk/x/staking/types"
-
-	"github.com/terra-money/alliance/x/alliance/types"
 )
 
 // keyReader walks a store key made of length-prefixed parts.
@@ -29,14 +24,6 @@ func (k *keyReader) rest() []byte { return k.b[k.off:] }
 
 func denomFromKeyPart(p []byte) int { return denomID(string(p[:len(p)-1])) } // strip the null terminator
 
-func timeNs(b []byte) string {
-	t, err := sdk.ParseTimeBytes(b)
-	if err != nil {
-		panic(err)
-	}
-	return bigTimeNs(t).String()
-}
-
 func (e *Env) rawIter(prefix []byte, f func(key, val []byte)) {
 	store := e.App.AllianceKeeper.StoreService().OpenKVStore(e.Ctx)
 	end := make([]byte, len(prefix))
@@ -50,36 +37,6 @@ func (e *Env) rawIter(prefix []byte, f func(key, val []byte)) {
 	for ; it.Valid(); it.Next() {
 		f(it.Key(), it.Value())
 	}
-}
-
-func (e *Env) histStr(hs []types.RewardHistory) string {
-	var sb strings.Builder
-	sb.WriteString("H ")
-	sb.WriteString(strconv.Itoa(len(hs)))
-	for _, h := range hs {
-		al := "-1"
-		if h.Alliance != "" {
-			al = strconv.Itoa(denomID(h.Alliance))
-		}
-		fmt.Fprintf(&sb, " %d %s %s", denomID(h.Denom), al, decRaw(h.Index))
-	}
-	return sb.String()
-}
-
-func decCoinsStr(cs []sdk.DecCoin) string {
-	var sb strings.Builder
-	sb.WriteString(strconv.Itoa(len(cs)))
-	for _, c := range cs {
-		fmt.Fprintf(&sb, " %d %s", denomID(c.Denom), decRaw(c.Amount))
-	}
-	return sb.String()
-}
-
-func (e *Env) redelStr(r *types.Redelegation) string {
-	return fmt.Sprintf("%d %d %d %d %s",
-		e.acctID(sdk.MustAccAddressFromBech32(r.DelegatorAddress)),
-		e.valID(mustVal(r.SrcValidatorAddress)), e.valID(mustVal(r.DstValidatorAddress)),
-		denomID(r.Balance.Denom), r.Balance.Amount.String())
 }
 
 func mustVal(s string) []byte {
@@ -96,190 +53,3 @@ func listStr(items []string) string {
 	}
 	return strconv.Itoa(len(items)) + " " + strings.Join(items, " ")
 }
-
-// Dump renders the full observable state as one `S …` line (see AllianceModel/Trace.lean for the grammar).
-func (e *Env) Dump() string {
-	k := e.App.AllianceKeeper
-	cdc := e.App.AppCodec()
-	ctx := e.Ctx
-	var sb strings.Builder
-	fmt.Fprintf(&sb, "S time %s height %d", bigTimeNs(ctx.BlockTime()).String(), ctx.BlockHeight())
-	p := k.GetParams(ctx)
-	fmt.Fprintf(&sb, " params %d %d %s", int64(p.RewardDelayTime), int64(p.TakeRateClaimInterval), bigTimeNs(p.LastTakeRateClaimTime).String())
-	flag := 0
-	e.rawIter(types.AssetRebalanceQueueKey, func(_, _ []byte) { flag = 1 })
-	fmt.Fprintf(&sb, " flag %d", flag)
-
-	var items []string
-	e.rawIter(types.AssetKey, func(key, val []byte) {
-		var a types.AllianceAsset
-		cdc.MustUnmarshal(val, &a)
-		kr := keyReader{b: key, off: 1}
-		kd := string(kr.part())
-		if kd != a.Denom {
-			panic("asset key/denom mismatch")
-		}
-		init := 0
-		if a.IsInitialized {
-			init = 1
-		}
-		items = append(items, fmt.Sprintf("%d %s %s %s %s %s %s %s %s %d %s %d", denomID(a.Denom), decRaw(a.RewardWeight),
-			decRaw(a.RewardWeightRange.Min), decRaw(a.RewardWeightRange.Max), decRaw(a.TakeRate), a.TotalTokens.String(),
-			decRaw(a.TotalValidatorShares), bigTimeNs(a.RewardStartTime).String(), decRaw(a.RewardChangeRate),
-			int64(a.RewardChangeInterval), bigTimeNs(a.LastRewardChangeTime).String(), init))
-	})
-	sb.WriteString(" assets " + listStr(items))
-
-	items = nil
-	e.rawIter(types.ValidatorInfoKey, func(key, val []byte) {
-		var info types.AllianceValidatorInfo
-		cdc.MustUnmarshal(val, &info)
-		kr := keyReader{b: key, off: 1}
-		v := e.valID(kr.part())
-		items = append(items, fmt.Sprintf("%d %s D %s V %s", v, e.histStr(info.GlobalRewardHistory),
-			decCoinsStr(info.TotalDelegatorShares), decCoinsStr(info.ValidatorShares)))
-	})
-	sb.WriteString(" vals " + listStr(items))
-
-	items = nil
-	e.rawIter(types.DelegationKey, func(key, val []byte) {
-		var d types.Delegation
-		cdc.MustUnmarshal(val, &d)
-		kr := keyReader{b: key, off: 1}
-		del := e.acctID(kr.part())
-		v := e.valID(kr.part())
-		dn := denomFromKeyPart(kr.part())
-		items = append(items, fmt.Sprintf("%d %d %d %s %d %s", del, v, dn, decRaw(d.Shares), d.LastRewardClaimHeight, e.histStr(d.RewardHistory)))
-	})
-	sb.WriteString(" dels " + listStr(items))
-
-	items = nil
-	e.rawIter(types.RedelegationKey, func(key, val []byte) {
-		var r types.Redelegation
-		cdc.MustUnmarshal(val, &r)
-		kr := keyReader{b: key, off: 1}
-		del := e.acctID(kr.part())
-		dn := denomFromKeyPart(kr.part())
-		dst := e.valID(kr.part())
-		items = append(items, fmt.Sprintf("%d %d %d %s %s", del, dn, dst, timeNs(kr.rest()), e.redelStr(&r)))
-	})
-	sb.WriteString(" redels " + listStr(items))
-
-	items = nil
-	e.rawIter(types.RedelegationQueueKey, func(key, val []byte) {
-		var q types.QueuedRedelegation
-		cdc.MustUnmarshal(val, &q)
-		var es []string
-		for _, r := range q.Entries {
-			es = append(es, e.redelStr(r))
-		}
-		items = append(items, timeNs(key[1:])+" "+listStr(es))
-	})
-	sb.WriteString(" rq " + listStr(items))
-
-	items = nil
-	e.rawIter(types.RedelegationByValidatorIndexKey, func(key, _ []byte) {
-		kr := keyReader{b: key, off: 1}
-		src := e.valID(kr.part())
-		tm := timeNs(kr.part())
-		dn := denomFromKeyPart(kr.part())
-		dst := e.valID(kr.part())
-		del := e.acctID(kr.part())
-		items = append(items, fmt.Sprintf("%d %s %d %d %d", src, tm, dn, dst, del))
-	})
-	sb.WriteString(" ri " + listStr(items))
-
-	items = nil
-	e.rawIter(types.UndelegationQueueKey, func(key, val []byte) {
-		var q types.QueuedUndelegation
-		cdc.MustUnmarshal(val, &q)
-		kr := keyReader{b: key, off: 1}
-		tm := timeNs(kr.part())
-		del := e.acctID(kr.part())
-		var es []string
-		for _, u := range q.Entries {
-			es = append(es, fmt.Sprintf("%d %d %d %s", e.acctID(sdk.MustAccAddressFromBech32(u.DelegatorAddress)),
-				e.valID(mustVal(u.ValidatorAddress)), denomID(u.Balance.Denom), u.Balance.Amount.String()))
-		}
-		items = append(items, fmt.Sprintf("%s %d %s", tm, del, listStr(es)))
-	})
-	sb.WriteString(" uq " + listStr(items))
-
-	items = nil
-	e.rawIter(types.UndelegationByValidatorIndexKey, func(key, _ []byte) {
-		kr := keyReader{b: key, off: 1}
-		v := e.valID(kr.part())
-		tm := timeNs(kr.part())
-		dn := denomFromKeyPart(kr.part())
-		del := e.acctID(kr.part())
-		items = append(items, fmt.Sprintf("%d %s %d %d", v, tm, dn, del))
-	})
-	sb.WriteString(" ui " + listStr(items))
-
-	items = nil
-	e.rawIter(types.RewardWeightChangeSnapshotKey, func(key, val []byte) {
-		var s types.RewardWeightChangeSnapshot
-		cdc.MustUnmarshal(val, &s)
-		kr := keyReader{b: key, off: 1}
-		dn := denomFromKeyPart(kr.part())
-		v := e.valID(kr.part())
-		h := sdk.BigEndianToUint64(kr.rest())
-		items = append(items, fmt.Sprintf("%d %d %d %s %s", dn, v, h, decRaw(s.PrevRewardWeight), e.histStr(s.RewardHistories)))
-	})
-	sb.WriteString(" snaps " + listStr(items))
-
-	items = nil
-	for _, id := range e.acctIDs {
-		for di, dn := range Denoms {
-			b := e.App.BankKeeper.GetBalance(ctx, e.acctAddr[id], dn)
-			if !b.Amount.IsZero() {
-				items = append(items, fmt.Sprintf("%d %d %s", id, di, b.Amount.String()))
-			}
-		}
-	}
-	sb.WriteString(" bank " + listStr(items))
-	items = nil
-	for di, dn := range Denoms {
-		s := e.App.BankKeeper.GetSupply(ctx, dn)
-		if !s.Amount.IsZero() {
-			items = append(items, fmt.Sprintf("%d %s", di, s.Amount.String()))
-		}
-	}
-	sb.WriteString(" supply " + listStr(items))
-
-	sb.WriteString(" " + e.stakingStr())
-	return sb.String()
-}
-
-func (e *Env) stakingStr() string {
-	ctx := e.Ctx
-	sk := e.App.StakingKeeper
-	bd, err := sk.BondDenom(ctx)
-	if err != nil {
-		panic(err)
-	}
-	ub, err := sk.UnbondingTime(ctx)
-	if err != nil {
-		panic(err)
-	}
-	var items []string
-	for i, va := range e.Vals {
-		v, err := sk.GetValidator(ctx, va)
-		if err != nil {
-			continue
-		}
-		ms := "-1"
-		if d, err := sk.GetDelegation(ctx, e.ModAddr, va); err == nil {
-			ms = decRaw(d.Shares)
-		}
-		j := 0
-		if v.Jailed {
-			j = 1
-		}
-		items = append(items, fmt.Sprintf("%d %d %d %s %s %s", i, int32(v.Status), j, v.Tokens.String(), decRaw(v.DelegatorShares), ms))
-	}
-	return fmt.Sprintf("staking %d %d %s", denomID(bd), int64(ub), listStr(items))
-}
-
-var _ = sort.Ints
-var _ = stakingtypes.Bonded
